@@ -60,16 +60,20 @@ fn finite_float_bits() -> BoxedStrategy<u32> {
 fn mtrl_strategy(_: &Ctx) -> BoxedStrategy<MtrlSpec> {
     (
         (any::<u32>(), path_name(), vec(path_name(), 0..=6), vec(any::<(u16, u16)>(), 0..3), vec(any::<(u16, u16)>(), 0..3), vec(path_name(), 0..3)),
-        (prop_oneof![4 => 0u8..4, 1 => Just(4u8)], any::<bool>(), any::<u64>(), 0u8..6, any::<u32>()),
+        (prop_oneof![8 => 0u8..4, 2 => Just(4u8), 1 => 5u8..7], any::<bool>(), any::<u64>(), 0u8..6, any::<u32>()),
         (vec(any::<(u32, u32)>(), 0..=8), vec((any::<u32>(), vec(finite_float_bits(), 1..=4)), 0..=8), vec((0u8..22, any::<u32>(), any::<u8>(), any::<[u8; 3]>()), 0..=6), any::<u32>(), 0u8..3),
     )
         .prop_map(|((version, shader_package, textures, uv_sets, color_sets, extra_strings), (table, dye, seed, additional_extra, flag_noise), (keys, constants, samplers, header_flags, value_gap))| {
             let rows = table_rows(table);
-            let dye_rows = if table == 4 { 32 } else { rows };
+            let dye_rows = match table {
+                4 | 6 => 32,
+                5 => 16,
+                _ => rows,
+            };
             let raw = crate::build::mdl::random_bytes(seed, rows * rows * 2 + dye_rows * 4);
             let table_halves: Vec<u16> = (0..rows * rows).map(|i| u16::from_le_bytes([raw[2 * i], raw[2 * i + 1]])).collect();
             let dye_words: Vec<u32> = (0..dye_rows).map(|i| u32::from_le_bytes(raw[rows * rows * 2 + 4 * i..rows * rows * 2 + 4 * i + 4].try_into().unwrap())).collect();
-            MtrlSpec { version, shader_package, textures, uv_sets, color_sets, extra_strings, table, dye: (dye && table != 2 && table != 0) || table == 4, table_halves, dye_words, additional_extra, flag_noise, keys, constants, samplers, header_flags, value_gap }
+            MtrlSpec { version, shader_package, textures, uv_sets, color_sets, extra_strings, table, dye: (dye && table != 2 && table != 0) || table >= 4, table_halves, dye_words, additional_extra, flag_noise, keys, constants, samplers, header_flags, value_gap }
         })
         .boxed()
 }
@@ -150,7 +154,7 @@ fn prop_mtrl(m: &MtrlSpec, ctx: &Ctx) -> PResult {
     }
     // colour table
     match (&mat.color_table, m.table) {
-        (None, 0) => {}
+        (None, 0 | 5 | 6) => {}
         (Some(ColorTable::LegacyColorTable(t)), 1 | 2) => {
             ensure_eq!(t.rows.len(), 16, "color-table-rows", "legacy row count");
             for (r, row) in t.rows.iter().enumerate() {
@@ -189,14 +193,14 @@ fn prop_mtrl(m: &MtrlSpec, ctx: &Ctx) -> PResult {
     }
     match (&mat.color_dye_table, m.dye, m.table) {
         (None, false, _) => {}
-        (Some(ColorDyeTable::LegacyColorDyeTable(t)), true, 1) => {
+        (Some(ColorDyeTable::LegacyColorDyeTable(t)), true, 1 | 5) => {
             ensure_eq!(t.rows.len(), 16, "dye-table-rows", "legacy dye rows");
             for (r, row) in t.rows.iter().enumerate() {
                 let d = m.dye_words[r] as u16;
                 ensure_eq!((row.template, row.diffuse, row.specular, row.emissive, row.gloss, row.specular_strength), (d >> 5, d & 1 != 0, d & 2 != 0, d & 4 != 0, d & 8 != 0, d & 16 != 0), "dye-table-row", "legacy dye row {} from word {:#06x}", r, d);
             }
         }
-        (Some(ColorDyeTable::DawntrailColorDyeTable(t)), true, 3 | 4) => {
+        (Some(ColorDyeTable::DawntrailColorDyeTable(t)), true, 3 | 4 | 6) => {
             ensure_eq!(t.rows.len(), 32, "dye-table-rows", "Dawntrail dye rows");
             for (r, row) in t.rows.iter().enumerate() {
                 let d = m.dye_words[r];
@@ -207,7 +211,7 @@ fn prop_mtrl(m: &MtrlSpec, ctx: &Ctx) -> PResult {
         }
         (got, dye, table) => return fail("dye-table-kind", format!("dye table: physis={:?}, stored dye={} table kind {}", got.as_ref().map(|g| format!("{:?}", g).chars().take(24).collect::<String>()), dye, table)),
     }
-    ctx.classf(format!("mtrl:table:{}", ["none", "legacy-dims0", "legacy-0x42", "dawntrail", "opaque-0x5X-with-dye"][m.table as usize]));
+    ctx.classf(format!("mtrl:table:{}", ["none", "legacy-dims0", "legacy-0x42", "dawntrail", "opaque-0x5X-with-dye", "dye-table-only-legacy", "dye-table-only-dawntrail"][m.table as usize]));
     if m.table == 4 {
         ctx.classf(format!("mtrl:dims:{:#04x}", 0x50 | opaque_dims_nibble(m.flag_noise)));
     }
@@ -408,7 +412,7 @@ fn prop_selector(lists: &Vec<Vec<u32>>, ctx: &Ctx) -> PResult {
 pub fn property() -> Property {
     Property {
         id: "C14",
-        rule: "materials: 0..6 texture paths (strings canonical: texture paths first, in order), uv / colour sets, extra strings, additional data of 4..9 bytes with random unrelated flag bits, table kind in {none, legacy dims 0, legacy dims 0x42, Dawntrail 0x53} with random half patterns in every row component, dye table where the reader supports it, 0..8 keys, 0..8 constants of 1..4 finite floats with gaps in the value list, 0..6 samplers over the 22 known usages. shader packages: DX9/DX11, 0..4 vertex / pixel shaders with 0..4 parameters of each kind (names in a shared heap, optionally de-duplicated), bytecode blobs, material parameters with / without defaults, package parameters, three key tables, 0..8 nodes with 0..16 passes, 0..6 aliases, tight (no trailing bytes) and roomy files. selector lists: 4 lists of 0..19 keys. Oracle: the generated values (private fields observed through Debug); colour / dye rows component by component from their own half / bit field (own half decoder); pixel bytecode exactly, vertex bytecode as the blob after its 8-byte header; find_node for every node selector, every alias and an absent selector; build_selector = sum key_i * 31^i mod 2^32 in u128 arithmetic. Non-trivial: material with a table whose first row has pairwise distinct halves; package with >= 1 alias and >= 2 nodes; selector lists with >= 2 keys. Distinct by hash of the file.",
+        rule: "materials: 0..6 texture paths (strings canonical: texture paths first, in order), uv / colour sets, extra strings, additional data of 4..9 bytes with random unrelated flag bits, table kind in {none, legacy dims 0, legacy dims 0x42, Dawntrail 0x53, opaque 0x5X with dye table, dye table without a colour table (legacy / Dawntrail: the two flag bits are independent)} with random half patterns in every row component, dye table where the reader supports it, 0..8 keys, 0..8 constants of 1..4 finite floats with gaps in the value list, 0..6 samplers over the 22 known usages. shader packages: DX9/DX11, 0..4 vertex / pixel shaders with 0..4 parameters of each kind (names in a shared heap, optionally de-duplicated), bytecode blobs, material parameters with / without defaults, package parameters, three key tables, 0..8 nodes with 0..16 passes, 0..6 aliases, tight (no trailing bytes) and roomy files. selector lists: 4 lists of 0..19 keys. Oracle: the generated values (private fields observed through Debug); colour / dye rows component by component from their own half / bit field (own half decoder); pixel bytecode exactly, vertex bytecode as the blob after its 8-byte header; find_node for every node selector, every alias and an absent selector; build_selector = sum key_i * 31^i mod 2^32 in u128 arithmetic. Non-trivial: material with a table whose first row has pairwise distinct halves; package with >= 1 alias and >= 2 nodes; selector lists with >= 2 keys. Distinct by hash of the file.",
         assumptions: &["vertex-shader bytecode beyond data_size - 8 is not compared; 8 spare bytes follow the file when it has vertex shaders", "dye table with dims 0x42 is not generated", "node and alias selectors are pairwise distinct; alias node indices are in range"],
         pre: None,
         post: None,
